@@ -1160,6 +1160,62 @@ def sort_independent_runs(func):
     return changed
 
 
+def _fold_bool(e):
+    """an expression with True / False literals in it, simplified (not, and, or, conditional expression)"""
+    if isinstance(e, ast.UnaryOp) and isinstance(e.op, ast.Not):
+        v = _fold_bool(e.operand)
+        if isinstance(v, ast.Constant) and isinstance(v.value, bool):
+            return ast.Constant(value=not v.value)
+        return ast.UnaryOp(op=ast.Not(), operand=v)
+    if isinstance(e, ast.BoolOp):
+        vals = [_fold_bool(v) for v in e.values]
+        out = []
+        for v in vals:
+            if isinstance(v, ast.Constant) and isinstance(v.value, bool):
+                if isinstance(e.op, ast.And) and not v.value or isinstance(e.op, ast.Or) and v.value:
+                    return v if not out else ast.BoolOp(op=e.op, values=out + [v])
+                continue
+            out.append(v)
+        if not out:
+            return ast.Constant(value=isinstance(e.op, ast.And))
+        return out[0] if len(out) == 1 and all(_is_boolean(x) for x in out) else (ast.BoolOp(op=e.op, values=out) if len(out) > 1 else out[0])
+    if isinstance(e, ast.IfExp):
+        t = _fold_bool(e.test)
+        if isinstance(t, ast.Constant) and isinstance(t.value, bool):
+            return _fold_bool(e.body if t.value else e.orelse)
+        return ast.IfExp(test=t, body=_fold_bool(e.body), orelse=_fold_bool(e.orelse))
+    return e
+
+
+def sink_bool_assign(func):
+    """`T = E(b)` (E free of side effects, b a local truth value tested by the very next `if b:` / `if not b:`) becomes the
+    first statement of both branches with b replaced by what it is there"""
+    changed = False
+    for owner, block in _all_blocks(func):
+        i = 0
+        while i + 1 < len(block):
+            st, nx = block[i], block[i + 1]
+            if isinstance(st, ast.Assign) and len(st.targets) == 1 and is_pure(st.value) and isinstance(nx, ast.If) and nx.orelse:
+                t = nx.test
+                neg = isinstance(t, ast.UnaryOp) and isinstance(t.op, ast.Not)
+                bname = (t.operand if neg else t)
+                if isinstance(bname, ast.Name) and _is_boolean(st.value) and any(isinstance(n, ast.Name) and n.id == bname.id for n in ast.walk(st.value)) \
+                        and chain(st.targets[0]) and chain(st.targets[0]) != (bname.id,) and is_pure(st.targets[0]):
+                    def variant(val):
+                        v = _Subst({bname.id: ast.Constant(value=val)}).visit(copy.deepcopy(st.value))
+                        a = ast.Assign(targets=copy.deepcopy(st.targets), value=_fold_bool(v))
+                        ast.copy_location(a, st)
+                        ast.fix_missing_locations(a)
+                        return a
+                    nx.body.insert(0, variant(not neg))
+                    nx.orelse.insert(0, variant(neg))
+                    del block[i]
+                    changed = True
+                    continue
+            i += 1
+    return changed
+
+
 def loops_to_sum(func):
     """`t = 0` followed by `for v in X: t += E` (t a local not read in E or X, v not used afterwards) is `t = sum([E for v in X])`"""
     changed = False
@@ -2030,6 +2086,11 @@ def _mk_cond_leaf(cond, then, other):
     c = cx(cond)
     if is_pure(cond):
         _PURE_ATOMS.add(c)
+    if isinstance(cond, ast.Name) and cond.id.startswith(MARK) and _NO_CLOSURES[0]:
+        # a local truth value is True in one branch and False in the other: `not b`, `b and x` written there are folded
+        t2, o2 = _assume_local(then, cond.id, True), _assume_local(other, cond.id, False)
+        if t2 is not None and o2 is not None:
+            then, other = _bubble_run(t2), _bubble_run(o2)
     return _mk_if(c, then, other)
 
 
@@ -2037,15 +2098,41 @@ _PURE_ATOMS = set()
 _COMP_DEPTH = [0]
 
 
+def _assume_local(tree, mark, val):
+    """the tree with `(Not mark)` replaced by its value, provided mark (a local tested just before) is not assigned anywhere in
+    the tree; other reads of mark are left alone (its value need not be the literal True / False)"""
+    neg = f'(Not {mark})'
+    text = repr(tree)
+    if neg not in text:
+        return tree
+    if f"('{mark}'" in text or f"'aug', " in text and f"'{mark}'" in text:
+        return tree
+
+    def repl(x):
+        if isinstance(x, str):
+            return x.replace(neg, 'cFalse' if val else 'cTrue')
+        if isinstance(x, tuple):
+            return tuple(repl(y) for y in x)
+        return x
+    return repl(tree)
+
+
 def _assume(tree, c, val):
-    """the tree with the side-effect-free test c known to be val, as far as only side-effect-free tests stand before it"""
-    if len(tree) == 1 and tree[0][0] == 'if' and tree[0][1] in _PURE_ATOMS:
-        _, a, t, e = tree[0]
-        if a == c:
-            return _assume(t if val else e, c, val)
-        t2, e2 = _assume(t, c, val), _assume(e, c, val)
-        if t2 is not t or e2 is not e:
-            return t2 if t2 == e2 else (('if', a, t2, e2),)
+    """the tree with the side-effect-free test c known to be val, as far as only side-effect-free tests and plain assignments that
+    cannot change what c reads stand before it"""
+    import re as _re
+    for i, node in enumerate(tree):
+        if node[0] == 'if' and node[1] in _PURE_ATOMS and i == len(tree) - 1:
+            _, a, t, e = node
+            if a == c:
+                return tree[:i] + _assume(t if val else e, c, val)
+            t2, e2 = _assume(t, c, val), _assume(e, c, val)
+            if t2 is not t or e2 is not e:
+                return tree[:i] + (t2 if t2 == e2 else (('if', a, t2, e2),))
+            return tree
+        if node[0] == 'assign' and all(_re.fullmatch(r'[\w' + MARK + r'.]+', t_) and t_ not in c for t_ in node[1]) and not _re.search(r'[\w\]]\(', node[2]):
+            continue        # e.g. self.x = self.y between two tests of self.z
+        return tree
     return tree
 
 
@@ -2122,6 +2209,12 @@ def seq(stmts, k, budget):
         if done is not None:
             budget[0] -= 1
             return done
+    if isinstance(st, ast.Assign) and len(st.targets) == 1 and isinstance(st.targets[0], ast.Name) and st.targets[0].id.startswith(MARK) and _NO_CLOSURES[0] \
+            and len(rest) == 1 and rest[0][0] == 'if' and rest[0][1] == st.targets[0].id and st.targets[0].id not in repr(rest[0][2]) + repr(rest[0][3]) \
+            and st.targets[0].id not in _HANDLER_READS[0]:
+        # a local that is only the test of the next `if`: the value is the test
+        budget[0] -= 1
+        return (('if', cx(st.value), rest[0][2], rest[0][3]),)
     if isinstance(st, ast.Assign) and len(st.targets) == 1 and isinstance(st.targets[0], ast.Attribute) and chain(st.targets[0]) and isinstance(st.value, ast.Constant) \
             and len(rest) == 1 and rest[0][0] == 'if' and rest[0][1] in _PURE_ATOMS:
         # `a.b = literal` overwritten at once on one branch of the following side-effect-free test: a default for the other branch
@@ -2141,7 +2234,34 @@ def seq(stmts, k, budget):
         # placed the return (after an if/else, at the end of the function, directly behind the assignment)
         budget[0] -= 1
         return (('return', cx(st.value)),)
-    return (_cstmt(st, budget),) + rest
+    return _bubble((_cstmt(st, budget),) + rest)
+
+
+def _bubble(tree):
+    """neighbouring assignments of literals to different plain attribute chains / names commute: the one with the smaller target
+    text goes first (the head of the tree only: it is applied each time a statement is put in front)"""
+    import re as _re
+
+    def simple(n):
+        return n[0] == 'assign' and len(n[1]) == 1 and _re.fullmatch(r'[\w.]+', n[1][0]) and _re.fullmatch(r'c(None|True|False|-?\d+(\.\d+)?)', n[2])
+    out = list(tree)
+    i = 0
+    while i + 1 < len(out) and simple(out[i]) and simple(out[i + 1]):
+        a, b = out[i][1][0], out[i + 1][1][0]
+        if b < a and not a.startswith(b) and not b.startswith(a):
+            out[i], out[i + 1] = out[i + 1], out[i]
+            i += 1
+        else:
+            break
+    return tuple(out)
+
+
+def _bubble_run(tree):
+    """the leading run of literal assignments of a tree in the order _bubble gives"""
+    out = tuple(tree)
+    for k in range(len(out) - 1, -1, -1):
+        out = out[:k] + _bubble(out[k:])
+    return out
 
 
 _HANDLER_READS = [frozenset()]
@@ -2427,6 +2547,7 @@ def canonical(func, helpers=None, consts=None, sized=None, cls_name=None, props=
             g = drop_dead_locals(f)
             h = loops_to_comprehensions(f)
             h = loops_to_any(f) or h
+            h = sink_bool_assign(f) or h
             h = loops_to_sum(f) or h
             h = try_keyerror_idioms(f) or h
             h = sink_into_branches(f) or h
